@@ -111,3 +111,27 @@ Definition c12_foreign_ok (c : ucase) (o : outcome recv_out) : bool :=
   | Panic => false
   | Ok r => implb (negb (id_sa (f_id (uc_frame c)) =? u_da (uc_u c))) (match r_sigs r with [] => true | _ => false end)
   end.
+
+(* C12, engine state: "the stopped/starting/running state derived from starter mode and rpm" as a reference table on the
+   raw starter-mode nibble (SPN 1675) and speed word: starter active => starting; start finished => running iff
+   rpm > 0; not available => by speed (0 stopped, below 500 starting, else running; absent stopped); every other
+   mode (not requested, inhibited, reserved, error) => stopped *)
+Definition ref_estate (d : list Z) : estate :=
+  let n := nth 6 d 255 mod 16 in
+  let raw := le16 d 3 in
+  let rpm := if raw =? 65535 then None else Some (Z.min 8031 (raw / 8)) in
+  if (n =? 1) || (n =? 2) then Starting
+  else if n =? 3 then (match rpm with Some r => if 0 <? r then Request else NoRequest | None => NoRequest end)
+  else if n =? 15 then (match rpm with Some r => if r =? 0 then NoRequest else if r <? 500 then Starting else Request | None => NoRequest end)
+  else NoRequest.
+Definition c12_state_ok (c : ucase) (o : outcome recv_out) : bool :=
+  match o with
+  | Panic => false
+  | Ok r =>
+      match uc_kind c with
+      | KEms | KVolvo =>
+          implb ((id_sa (f_id (uc_frame c)) =? u_da (uc_u c)) && (id_pgn (f_id (uc_frame c)) =? 61444))
+                (match r_sigs r with [OEngine e] => estate_eqb (e_state e) (ref_estate (f_data (uc_frame c))) | _ => false end)
+      | _ => true
+      end
+  end.
